@@ -352,4 +352,43 @@ def runCli (genOfSeed : Nat → Stream) (seed : Nat) (op : Op) (a : Args) (γ ω
 the lemma file the trace of a G-only operation does not depend on Γ and Ω) -/
 def trace (op : Op) (a : Args) : List Event := (run (prog op a) ⟨fun _ => 0, fun _ => 0, fun _ => 0⟩).trace
 
+/-! ## which generator a trained model draws from (sampling.py:45-49)
+
+A model object may already HOLD a generator when it is handed to `sampling.sample` (constructor
+argument `rng=` of `SparseDrugCombo`, an earlier `set_rng`, an earlier call of `sample`).
+Generators are identified by a number; `sample` creates the generator of THIS call from
+`(seed, n_chains, chain_index)` and installs it unconditionally. -/
+
+abbrev GenId := Nat
+
+/-- `model.reset_model(); model.set_rng(rng)`: whatever the model held, it now holds `callGen` -/
+def installRng (_held : Option GenId) (callGen : GenId) : Option GenId := some callGen
+
+/-- the generator a step of the model draws from: the installed one (`none`: global numpy state,
+written `0` never occurs after `installRng`) -/
+def stepGen (held : Option GenId) : Option GenId := held
+
+/-- one call of `sampling.sample` on a model object: the new held generator and the generator
+every draw of the call's `steps` sweeps comes from -/
+def sampleCall (held : Option GenId) (callGen : GenId) : Option GenId × Option GenId :=
+  let h := installRng held callGen
+  (h, stepGen h)
+
+/-- successive calls of `sample` on the SAME object with generators `gens`: the source of the
+draws of each call -/
+def sampleCalls : Option GenId → List GenId → List (Option GenId)
+  | _, [] => []
+  | held, g :: gs => (sampleCall held g).2 :: sampleCalls (sampleCall held g).1 gs
+
+/-- the variant that is NOT the code (kept for the negative theorem): install only when the model
+holds nothing -/
+def installIfNone (held : Option GenId) (callGen : GenId) : Option GenId :=
+  match held with
+  | some h => some h
+  | none => some callGen
+
+def sampleCallsIfNone : Option GenId → List GenId → List (Option GenId)
+  | _, [] => []
+  | held, g :: gs => installIfNone held g :: sampleCallsIfNone (installIfNone held g) gs
+
 end Batchie.Rand
